@@ -116,16 +116,20 @@ theorem C15_structCmp_eq_std (a b : Term) (ha : plain a = true) (hb : plain b = 
     structCmp a b = stdCompare a b := structCmp_eq_std a b ha hb
 
 /-- The code before the patches does **not**: `10` is put before `9` (numbers that differ fall through and are
-    compared as strings), and `'hello world'` before `abc` (the quote character takes part). -/
+    compared as strings), `'hello world'` before `abc` and the string `"a b"` before `"a"` (the quote characters
+    take part in the comparison). -/
 theorem C15_structCmp_orig_refuted (fl : Rat → String) :
     structCmpOrig fl (.int 10) (.int 9) = .lt ∧ stdCompare (.int 10) (.int 9) = .gt ∧
     structCmpOrig fl (.app "'hello world'" []) (.app "abc" []) = .lt ∧
-    stdCompare (.app "'hello world'" []) (.app "abc" []) = .gt := by
-  refine ⟨?_, by decide, ?_, by decide⟩
+    stdCompare (.app "'hello world'" []) (.app "abc" []) = .gt ∧
+    structCmpOrig fl (.str "a b") (.str "a") = .lt ∧ stdCompare (.str "a b") (.str "a") = .gt := by
+  refine ⟨?_, by decide, ?_, by decide, ?_, by decide⟩
   · have h : cmpHeadOrig (.int 10) (.int 9) = none := by decide
     simp only [structCmpOrig, h, functorText, Term.arity]; decide
   · have h : cmpHeadOrig (.app "'hello world'" []) (.app "abc" []) = none := by decide
     simp only [structCmpOrig, h, structCmpOrigArgs]; decide
+  · have h : cmpHeadOrig (.str "a b") (.str "a") = some .lt := by decide
+    simp only [structCmpOrig, h]
 
 /-- The legacy shape really is outside the standard order (why `plain` is needed): `'-'(3)` is a compound term,
     the code orders it before the atom `a`. -/
